@@ -41,6 +41,12 @@ prop("C19", True,
      note="Trusted: go/ssa, VTA call graph; third-party encoders (encoding/json, protojson, prototext, ghodss/yaml) are deterministic; distinct map values do not alias; logging is not output; push/pop stack fields are balanced. Not decided: byte-identity of output (only the absence of order-dependent construction), arr.ai bundles, 39 baseline loops reported as unconfirmed.",
      design="DESIGN.md §3 C19, §2 R-ORDER")
 
+prop("C07", True,
+     technique="R-ORDER taint analysis on the compile path, SSA dataflow for per-instance recogniser state, defer pairing, who-may-write rule for package variables, capture analysis of goroutine closures",
+     text="Decides structural necessary conditions of deterministic and concurrency-safe compilation: no map iteration reachable from Parser.Parse or the pbutil encoders reaches an order-sensitive effect on the model or output (the validated 'post-process applications in map order' mutation is reported with its sink); the generated lexer/parser constructors are called only from the thread-safe wrappers, each of which replaces the Interpreter on every path with a simulator whose ATN, DFA table and prediction cache are created in that call and never read from a package variable; every thread-safe lexer created on the compile path has DeleteLexerState deferred on the same value immediately, the state table is the lock-free hashmap touched only by its per-lexer accessors; no repository package variable is written on the compile path outside init (one sync.Once-guarded exception); goroutine closures of the pipeline write only per-iteration variables or elements indexed by the loop variable; binary encoding uses Deterministic: true.",
+     note="Trusted: go/ssa, VTA call graph, cornelk/hashmap is concurrency-safe, sync.Once, antlr constructors return fresh objects. Not decided: data-race freedom inside the ANTLR runtime or dependencies (no happens-before model), byte-identity of two runs; 18 baseline loops shared with C19 are reported as unconfirmed.",
+     design="DESIGN.md §3 C07")
+
 for i in range(1, 21):
     pid = "C%02d" % i
     if pid not in P:
